@@ -76,6 +76,10 @@ def cases(tier, seed):
         for rn, assub in (('cv25519_0', True), ('rsa1024_1', True), ('rsa2048_1', False), ('ecdh_p256_0', True)):
             cs.append({'d': 'A', 'msg': {'body': 'ascii', 'comp': 'ZLIB'}, 'cipher': 'AES256', 'rcpts': [['key', rn, assub, fl]], 'sk': 'gen', 'signed': True, 'armor': False})
             cs.append({'d': 'A', 'msg': {'body': 'text', 'comp': 'ZIP'}, 'cipher': 'AES128', 'rcpts': [['key', rn, assub, fl], ['pass', 0, 'SHA256']], 'sk': 'supplied', 'signed': False, 'armor': True})
+    for j, pat in enumerate(('zeros', 'ones', 'count', 'ff', 'one-bit')):
+        for rn in ('rsa2048_1', 'cv25519_0', 'ecdh_p256_0'):
+            cs.append({'d': 'A', 'msg': {'body': 'ascii', 'comp': 'Uncompressed'}, 'cipher': ['AES128', 'AES256', 'CAST5'][j % 3], 'rcpts': [['key', rn, True]] + ([['pass', 0, 'SHA256']] if j % 2 else []),
+                       'sk': 'pattern:' + pat, 'signed': False, 'armor': False})
     for c in ('IDEA', 'Twofish256'):
         cs.append({'d': 'refuse', 'cipher': c})
     if tier == 'thorough':
@@ -139,6 +143,10 @@ def _A(ctx, d, pgpy):
         sk = None if len(d['rcpts']) == 1 else calg.gen_key()
     elif d['sk'] == 'supplied':
         sk = bytes(rng.getrandbits(8) for _ in range(sym.keylen(cid)))
+    elif d['sk'].startswith('pattern'):
+        # caller-supplied keys with structure: all zero, all one, a counting run, all 0xFF (checksum 0, below 256, above 255 * 16)
+        n_ = sym.keylen(cid)
+        sk = {'zeros': bytes(n_), 'ones': b'\x01' * n_, 'count': bytes(range(n_)), 'ff': b'\xff' * n_, 'one-bit': bytes(n_ - 1) + b'\x01'}[d['sk'][8:]]
     else:
         sk = bytes(rng.getrandbits(8) for _ in range(int(d['sk'][5:])))
     wrong_size = sk is not None and len(sk) != sym.keylen(cid)
